@@ -128,6 +128,14 @@ func checkC17(c *Ctx) {
 				}
 				return false
 			})
+			// the other closed form: the instant itself stepped back by its own weekday number,
+			// `t.AddDate(0, 0, -int(t.Weekday()))`, unconditionally or skipped when that number is zero
+			if !sunday && !closedForm && base != nil && ymd {
+				if steppedBackByWeekday(trivialPhi(base)) {
+					closedForm = true
+					quantClosedForm = true
+				}
+			}
 			good = z && utc && ymd && (sunday || closedForm)
 		}
 		if good {
@@ -386,4 +394,65 @@ func ruleStartTimeHandedOn(c *Ctx, rule string, newFn *ssa.Function) {
 		}
 	}
 	check(newFn, 0, 0)
+}
+
+// steppedBackByWeekday: v is x.AddDate(0, 0, -int(x.Weekday())), or the merge of that value with x itself
+// over the edge on which the weekday number was found to be zero.
+func steppedBackByWeekday(v ssa.Value) bool {
+	isStep := func(v ssa.Value) (ssa.Value, ssa.Value, bool) { // (x, day count value, ok)
+		call, ok := v.(*ssa.Call)
+		if !ok || call.Call.StaticCallee() == nil || calleeFullName(call.Call.StaticCallee()) != "(time.Time).AddDate" || len(call.Call.Args) != 4 {
+			return nil, nil, false
+		}
+		if y, ok := constInt(call.Call.Args[1]); !ok || y != 0 {
+			return nil, nil, false
+		}
+		if m, ok := constInt(call.Call.Args[2]); !ok || m != 0 {
+			return nil, nil, false
+		}
+		neg, ok := call.Call.Args[3].(*ssa.UnOp)
+		if !ok || neg.Op != token.SUB {
+			return nil, nil, false
+		}
+		w, ok := stripConv(neg.X).(*ssa.Call)
+		if !ok || w.Call.StaticCallee() == nil || calleeFullName(w.Call.StaticCallee()) != "(time.Time).Weekday" {
+			return nil, nil, false
+		}
+		if trivialPhi(w.Call.Args[0]) != trivialPhi(call.Call.Args[0]) {
+			return nil, nil, false
+		}
+		return trivialPhi(call.Call.Args[0]), neg.X, true
+	}
+	if _, _, ok := isStep(v); ok {
+		return true
+	}
+	phi, ok := v.(*ssa.Phi)
+	if !ok || len(phi.Edges) != 2 {
+		return false
+	}
+	for i := 0; i < 2; i++ {
+		x, days, ok := isStep(phi.Edges[i])
+		if !ok || trivialPhi(phi.Edges[1-i]) != x {
+			continue
+		}
+		// the unstepped edge is taken only when the day count is zero (it is never negative)
+		pred := phi.Block().Preds[1-i]
+		ifi, ok := lastInstr(pred).(*ssa.If)
+		if !ok || len(pred.Succs) != 2 {
+			continue
+		}
+		taken := pred.Succs[0] == phi.Block()
+		cmp, ok := ifi.Cond.(*ssa.BinOp)
+		if !ok || cmp.X != days {
+			continue
+		}
+		if k, isC := constInt(cmp.Y); !isC || k != 0 {
+			continue
+		}
+		switch {
+		case cmp.Op == token.GTR && !taken, cmp.Op == token.NEQ && !taken, cmp.Op == token.EQL && taken, cmp.Op == token.LEQ && taken:
+			return true
+		}
+	}
+	return false
 }
